@@ -485,6 +485,13 @@ func faultSchedConfigs() ([]sched.Config, func(string) *sched.Config) {
 				New: func() sched.Scenario { w := backpressureWorld(et, how); w.name = name; return w }})
 		}
 	}
+	for _, et := range []bool{false, true} {
+		et := et
+		// a failing registration on the client side (Client.Enroll), see c19_mc_test.go
+		name := "client-enroll-fault/" + map[bool]string{false: "LT", true: "ET"}[et]
+		out = append(out, sched.Config{Property: "C18", Name: name, Bounds: []sched.Bound{{PB: 0, DB: 0}, {PB: 0, DB: 1}, {PB: 1, DB: 1}}, Horizon: 40000, Deadline: seqmc.Deadline(), DelayBounded: true,
+			New: func() sched.Scenario { return clientEnrollFaultWorld(et) }})
+	}
 	for _, loops := range []int{1, 2} {
 		loops := loops
 		name := fmt.Sprintf("startup-fault/%d-loops", loops)
